@@ -27,6 +27,8 @@ func SendServiceUsageRequest(
 	if err != nil {
 		return nil, err
 	}
+	// One connection per request: release it (and its watchdog) once the request is over
+	defer conn.Close()
 
 	meta, ok := smpeer.FromContext(conn.Context())
 	if !ok {
